@@ -281,8 +281,8 @@ func (g *goLanes) run(fn *ssa.Function, args []bitDeps) bitDeps {
 				g.val[x] = d
 			}
 		case *ssa.Return:
-			if len(x.Results) == 1 {
-				ret = g.get(x.Results[0])
+			if len(retVals(x)) == 1 {
+				ret = g.get(retVals(x)[0])
 			}
 		}
 	}
